@@ -89,6 +89,9 @@ def run(tier):
     from . import c09
     from .common import Relabel
     c09._d_restriction(Relabel(chk, {"C09.d": "C18.b-source"}))
+    # the public facade binds every argument to the service parameter it is meant for (nominal swap rule, rules/common.py)
+    from . import common as _common
+    _common.facade_bindings(chk, "C18.a-facade", ['hiten.system.hamiltonian'], floor=2)
     return chk
 
 
